@@ -805,6 +805,32 @@ def mon_C17(t):
     return out[:20]
 
 
-MONITORS = {"C05": guarded(mon_C05), "C06": guarded(mon_C06), "C09": guarded(mon_C09), "C10": guarded(mon_C10),
+# ------------------------------------------------------------------------------------ C04 (runner part)
+def mon_C04(t):
+    """an order object is accepted at most once, only by the market it names and only when submitted by its owner"""
+    out = []
+    req = t.requested()
+    seen = set()
+    for k, e in enumerate(t.ev):
+        if e[0] == 6 and e[1] == 1:
+            oid, mk, tm, ag, buy, price, vol, ttl, tag = e[2:11]
+            r = req.get(tag)
+            if r is None:
+                out.append(V("accepted-order-was-never-submitted", k, tag=tag))
+                continue
+            if tag in seen:
+                out.append(V("object-accepted-twice", k, tag=tag))
+            seen.add(tag)
+            if r["by"] != ag:
+                out.append(V("accepted-only-when-submitted-by-owner", k, owner=ag, submitted_by=r["by"]))
+            if r["market"] != mk:
+                out.append(V("accepted-only-by-the-market-it-names", k, names=r["market"], accepted_by=mk))
+    ab = _unexpected_abort(t)
+    if ab:
+        out.append(ab)
+    return out[:20]
+
+
+MONITORS = {"C04": guarded(mon_C04), "C05": guarded(mon_C05), "C06": guarded(mon_C06), "C09": guarded(mon_C09), "C10": guarded(mon_C10),
             "C11": guarded(mon_C11), "C13": guarded(mon_C13), "C14": guarded(mon_C14), "C15": guarded(mon_C15),
             "C16": guarded(mon_C16), "C17": guarded(mon_C17)}
